@@ -116,9 +116,12 @@ func suiteRoute(c *Ctx) {
 		n = 30000
 	}
 	// every command type of the table + the markers, on a few fixed sets; then random sets
+	// the command types of the table (the write marker itself is not a command)
 	var types []codec.Command
 	for t := codec.UNKNOWN + 1; t < codec.ReqTooLarge; t++ {
-		types = append(types, t)
+		if _, ok := codec.CommandType2Str[t]; ok {
+			types = append(types, t)
+		}
 	}
 	emit := func(disable bool, t codec.Command, master string, reps []rep, seed int64, tags ...string) {
 		var rs []sx.V
